@@ -50,7 +50,7 @@ func suiteNode(c *Ctx) {
 			}
 			ws[r.Intn(n)] = uint64(3 + r.Intn(6))
 		}
-		opts := NetOpts{N: n, Weights: ws, Inst: uint64(100 + r.Intn(3)), IdScheme: schemeFor(i)}
+		opts := NetOpts{N: n, Weights: ws, Inst: uint64(100 + r.Intn(3)), IdScheme: schemeFor(i), SendErrs: i%4 == 2}
 		net := NewNet(c, opts, fmt.Sprintf("honest n=%d weights=%v ids=%d", n, ws, opts.IdScheme))
 		prof := SchedProfile{Drop: 30, Dup: 30, Timeout: 25, StaleTimeout: 200, Sync: 5, Byz: 0, CancelDuring: 10, CommitFail: 10, MaxSteps: 400, MaxHeight: 3, PendingSync: 8}
 		if i%3 == 1 {
@@ -77,6 +77,8 @@ func suiteNode(c *Ctx) {
 	c.Class("scenario/outsiders-first")
 	scenarioForeignEmbeddedProposal(c)
 	c.Class("scenario/nv-foreign-embedded-proposal")
+	scenarioNewViewWrongBlock(c)
+	c.Class("scenario/nv-wrong-block")
 	scenarioCommitWhileSyncPending(c)
 	c.Class("scenario/commit-while-sync-pending")
 	scenarioTwoBlockProof(c)
@@ -128,7 +130,7 @@ func suiteNode(c *Ctx) {
 		if len(byz) == 0 {
 			continue
 		}
-		opts := NetOpts{N: n, Weights: ws, ByzIdx: byz, Inst: uint64(100 + r.Intn(3)), IdScheme: schemeFor(i)}
+		opts := NetOpts{N: n, Weights: ws, ByzIdx: byz, Inst: uint64(100 + r.Intn(3)), IdScheme: schemeFor(i), SendErrs: i%4 == 3}
 		net := NewNet(c, opts, fmt.Sprintf("byzantine n=%d weights=%v byz=%v ids=%d", n, ws, byz, opts.IdScheme))
 		prof := SchedProfile{Drop: 20, Dup: 20, Timeout: 40, StaleTimeout: 100, Sync: 3, Byz: 120, CancelDuring: 10, CommitFail: 5, MaxSteps: 500, MaxHeight: 2, PendingSync: 4}
 		if i%4 == 1 {
@@ -493,6 +495,39 @@ func scenarioOutsidersFirst(c *Ctx, scheme int) *Net {
 	}
 	net.pool = append(others, net.pool...)
 	for guard := 0; guard < 3000 && len(net.pool) > 0; guard++ {
+		f := net.pool[0]
+		net.pool = net.pool[1:]
+		net.deliverFlight(f)
+	}
+	return net
+}
+
+// nv-wrong-block: all correct members accept the proposal of view 0 and become prepared on it; the
+// COMMITs are lost and everybody times out.  The Byzantine leader of view 1 sends a NEW_VIEW that is by
+// the book in everything that is signed (genuine votes with their proofs, proposal signed over the
+// proven hash) but attaches another block.  The members already hold the proven block of the proven view.
+func scenarioNewViewWrongBlock(c *Ctx) *Net {
+	net := NewNet(c, NetOpts{N: 4, Weights: []uint64{1, 1, 1, 1}, ByzIdx: []int{1}, Inst: 100}, "nv-wrong-block n=4 byz=[1]")
+	net.start()
+	a := net.adv
+	typ := func(f *Flight) string { return fmt.Sprintf("%T", interfaces.ToConsensusMessage(f.Raw)) }
+	// view 0: proposals and PREPAREs are delivered, COMMITs are lost
+	for guard := 0; guard < 2000 && len(net.pool) > 0; guard++ {
+		f := net.pool[0]
+		net.pool = net.pool[1:]
+		if typ(f) == "*interfaces.CommitMessage" {
+			continue
+		}
+		net.deliverFlight(f)
+	}
+	for _, n := range net.order {
+		net.timeout(n, false)
+	}
+	net.pool = nil // the votes for view 1 went to the Byzantine leader (it has seen them)
+	if !a.nvWrongBlock(1, 1) {
+		c.Class("scenario/nv-wrong-block/not-reached")
+	}
+	for guard := 0; guard < 2000 && len(net.pool) > 0; guard++ {
 		f := net.pool[0]
 		net.pool = net.pool[1:]
 		net.deliverFlight(f)
